@@ -1,4 +1,4 @@
-CONSTANT FamilyG = "bool"
+CONSTANT FamilyG = "extrude"
 INIT Init
 NEXT Next
 INVARIANT Laws
